@@ -125,7 +125,11 @@ pub fn build_case(rng: &mut Rng, rep: &mut Report, thorough: bool) -> Option<Str
         for _ in 0..nframes {
             let channels = if rng.chance(1, 2) { rng.usize(1, 2) } else { rng.usize(1, 8) } as u8;
             let bps = *rng.pick(&[8u32, 12, 16, 20, 24, 32]);
-            let rate = subset_rate(rng);
+            // one call in six names a rate no frame header can carry (>= 65535 Hz and neither a multiple
+            // of 10 Hz nor a whole number of kHz below 255): the writer may only refuse it - if it
+            // accepts, the frame it wrote has to say exactly that rate like any other
+            let undescribable = rng.chance(1, 6);
+            let rate = if undescribable { *rng.pick(&[65535u32, 65537, 88201, 96001, 99999, 176401, 352801, 655349, 655351, 700001, 1048575]) } else { subset_rate(rng) };
             let len = match rng.below(8) {
                 0 => rng.usize(1, 15),
                 1 => *rng.pick(&[192usize, 256, 576, 1024, 4096]),
@@ -141,6 +145,10 @@ pub fn build_case(rng: &mut Rng, rep: &mut Report, thorough: bool) -> Option<Str
                     rep.violation("panic", p.signature(), format!("FlacStreamWriter::write: {} at {}", p.msg, p.location), J::obj().set("rate", rate).set("channels", channels).set("bps", bps).set("len", len));
                     return None;
                 }
+                Ok(Err(_)) if undescribable => {
+                    rep.count("undescribable_rate", "refused");
+                    continue;
+                }
                 Ok(Err(e)) => {
                     rep.violation(
                         "encode-error",
@@ -150,7 +158,11 @@ pub fn build_case(rng: &mut Rng, rep: &mut Report, thorough: bool) -> Option<Str
                     );
                     return None;
                 }
-                Ok(Ok(())) => {}
+                Ok(Ok(())) => {
+                    if undescribable {
+                        rep.count("undescribable_rate", "accepted (frame must carry it)");
+                    }
+                }
             }
             lens.push(());
             model.push(ModelFrame { rate, channels, bps, samples });
